@@ -36,7 +36,7 @@ inline Profile make_profile(const std::string& n) {
     W(O_SWAP_REPORTER, 2); W(O_DESTROY_HUSKS, 1); W(O_SCOPED, 5); p.p_lit = 20; p.concentrate = true;
   } else if (n == "forbid") {
     W(O_CREATE, 26); W(O_RELEASE, 12); W(O_CALL, 56); W(O_MOVE_MOCK, 2); W(O_DESTROY_MOCK, 1); W(O_RECREATE_MOCK, 2); W(O_DESTROY_HUSKS, 1); W(O_SCOPED, 5);
-    p.p_lit = 30; p.concentrate = true; p.p_forbid = 35; p.p_inf = 40; p.p_fx = 35;
+    p.p_lit = 30; p.concentrate = true; p.p_forbid = 35; p.p_inf = 40; p.p_fx = 35; p.p_seq = 25;
   } else if (n == "overlap") {
     W(O_CREATE, 28); W(O_RELEASE, 8); W(O_CALL, 58); W(O_MOVE_MOCK, 1); W(O_SWAP_REPORTER, 1);
     p.p_seq = 45; p.p_seq2 = 40; p.concentrate = true; p.p_forbid = 6; p.p_inf = 45; p.p_lit = 8;
@@ -116,7 +116,7 @@ inline Op decode(const uint8_t* b, const Profile& p) {
       int lo = b[11] % 4, span = b[12] % 4;
       int hi = lo + span;
       if (pct(13, p.p_inf)) hi = -1;
-      else if (nseq == 0 && pct(14, p.p_forbid)) { lo = 0; hi = 0; }
+      else if (pct(14, p.p_forbid)) { lo = 0; hi = 0; }   // RT_TIMES(0,0): forbidding, also when sequenced
       else if (hi == 0) hi = 1;
       if ((b[14] % 100) < p.p_bad_times && b[13] % 2) { lo = 2 + b[11] % 3; hi = lo - 1; }  // RT_TIMES(lo > hi)
       o.a[CA_LO] = lo; o.a[CA_HI] = hi;
